@@ -16,7 +16,7 @@ COMMON_NOTE = (
 CLAIMED = {
     # id: (technique, claim text, design ref, extra level note)
     "C01": (
-        "writer/reader positional-table agreement by provenance and sink",
+        "writer/reader positional-table agreement by provenance and sink + no value filter on restored fields + un-memoised codec choice + record-file key/length agreement (borrowed C02.R4)",
         "Decides, for the four codecs in chem/io.py, that each writer tuple position and the reader position at the same "
         "index name the same field (by provenance of the writer element and the constructor keyword / role the reader "
         "value sinks into), with equal float dtypes of >= 4 bytes, reshape dims equal to the counts the writer stored and "
@@ -42,7 +42,7 @@ CLAIMED = {
         "everything numerical in C11 is outside the technique (see the seeded changes C12-m1 and C13-m3 for the boundary).",
     ),
     "C12": (
-        "effect summaries over the resolved call graph + reachability of hidden state + data-flow facts",
+        "effect summaries over the resolved call graph + reachability of hidden state + data-flow facts + half-turn branch shape (borrowed C11.R6)",
         "Decides that Structure.join never writes its inputs (effect summaries: attribute/item stores, augmented assignment, "
         "mutator methods, views, transitively through resolved callees with dynamic dispatch along the static MRO); that no "
         "function reachable from join reads a global RNG / clock or mutates process- or module-global state; that an override "
@@ -55,7 +55,7 @@ CLAIMED = {
         "rigidity, handedness, bond direction and length as numbers, and the rotamer choice are numerical and not decided.",
     ),
     "C15": (
-        "shape rules on the BFS generators + sibling comparison + call-site roles at the graph matcher",
+        "shape rules on the BFS generators (queue form and level-by-level form) + sibling comparison + call-site roles at the graph matcher",
         "Decides the shapes whose failure is the classic slip: in both breadth-first generators the dequeue and the enqueue "
         "act on opposite ends of the deque; every yield sits under `not in visited` together with visited.add and the "
         "enqueue of the same atom, over the neighbours of the popped atom; seeds and distance arithmetic (popped + 1); the two "
@@ -66,7 +66,7 @@ CLAIMED = {
         "the full 'exactly the induced embeddings' and general ring perception are not decided; networkx trusted.",
     ),
     "C16": (
-        "effect discipline + pairing + interval coverage of the dispatch + formula ast + additive provenance",
+        "effect discipline (incl. in-place updates of shared module tables) + pairing + per-count specialisation of the placement dispatch + formula ast + additive provenance on the value form",
         "Decides that add_implicit_hydrogens changes the molecule only through add_atom(fresh H) / append_bond(fresh Bond) "
         "(calls resolved through the effect summaries), never assigns attributes of existing atoms (the documented hint pop "
         "excepted) and never operates in place on a view of the coordinates; that every fresh hydrogen is bonded exactly once "
@@ -89,7 +89,7 @@ CLAIMED = {
         "the C++ extension cannot be rebuilt or parsed here (no pybind11 headers); the prebuilt binary is assumed to correspond to distance.cpp.",
     ),
     "C17": (
-        "shared-descriptor store rule + runner shape on the ast/CFG + control dependence of the exit status",
+        "shared-descriptor store rule + runner shape on the ast/CFG + exit status and recorded exit code tabulated over a finite outcome model (truth table of the conditions, sa/truth.py)",
         "Decides that Job.__get__ keeps no per-driver state on the descriptor shared by all driver instances (no store rooted at "
         "self; a fresh copy carrying executable/nprocs/envars that consults the driver instance is returned); that run_local uses a "
         "with-managed scratch directory, runs the commands in order with identical cwd/env (a copy of os.environ plus job.envars) "
@@ -100,7 +100,7 @@ CLAIMED = {
         "subprocess behaviour and captured text are not decided.",
     ),
     "C18": (
-        "set-provenance lattice + branch narrowing + control dependence of reuse and of destination stores",
+        "set-provenance lattice + branch narrowing + control dependence of reuse and of destination stores + outcome truth table of the runner and hash/dump/load agreement (borrowed C17.R3-R5)",
         "Decides, alike for jobmap and jobmap_sge, that the work list is provably a subset of the source keys; that the generator "
         "of per-conformer inputs is not used as a JobInput in the vectorised branch; that skipping a cached item is control-"
         "dependent on exitcode == 0 and on input_hash == the hash of the current input of that branch (bypassed only by "
@@ -125,7 +125,7 @@ CLAIMED = {
         "the 3-D interpretation of wedges, nearest-fragment geometry and radical semantics are not decided.",
     ),
     "C14": (
-        "array co-update per block + re-entrant iteration + view completeness along the MRO",
+        "array co-update per path + re-entrant iteration + view completeness along the MRO (helper properties spelled out) + copy independence and ensemble codec agreement (borrowed C06.R6, C01)",
         "Decides that every block of every ConformerEnsemble method that rebinds one of _coords/_atomic_charges/_weights with a "
         "shape-changing constructor rebinds all three (literal shapes agreeing on n_conformers and n_atoms); that __iter__ "
         "hands out a fresh iterator; that the Conformer view defines a row-writing setter for every slot an inherited public "
@@ -158,7 +158,7 @@ CLAIMED = {
         "crash model: a prefix of the session's bytes reaches the disk.",
     ),
     "C04": (
-        "must-release / must-close on the exceptional CFG with finally duplication",
+        "must-release / must-close on the exceptional CFG with finally duplication + creation under the write lock (existence test inside it) + open() specialised per mode + scan / torn-tail clauses (borrowed C02.R1, C03.R2-R4)",
         "Decides that from the successful lock acquire every path of reading()/writing() (normal, exception at the "
         "yield, in update_keys, in flush, in end_*) passes the matching release, and from begin_* every path passes "
         "end_*; plus kind pairing, ordering acquire<begin<update_keys<yield, index refresh under the lock, lock "
@@ -167,7 +167,7 @@ CLAIMED = {
         "schedules and real multi-process behaviour are not explored; fasteners trusted.",
     ),
     "C05": (
-        "container co-update across the static MRO + who-may-write + parent bookkeeping",
+        "container co-update across the static MRO + who-may-write + parent bookkeeping + sibling resolver dispatch (incl. delegation) + one-shot iterable consumption count",
         "Decides that along the statically linearised chain Molecule -> Structure -> CartesianGeometry -> Connectivity -> "
         "Promolecule every primitive that changes the number of atoms (del_atom, add_atom, append_atom) is overridden by each "
         "class that owns a per-atom container, reaches super() on every normal path, resizes its own container by exactly "
@@ -179,7 +179,7 @@ CLAIMED = {
         "two open known findings (F5a: append_atom / bond adoption does not extend coordinates and charges).",
     ),
     "C06": (
-        "ownership / aliasing rules over copy branches, evolve and the pickling protocol",
+        "ownership / aliasing rules over copy branches (path conditions), evolve and the pickling protocol + parent bookkeeping of inserted elements (borrowed C05.R3/R4)",
         "Decides that evolve and the Promolecule copy branch deep-copy every mutable attrs field; that each class's copy "
         "branch moves every container it owns from the source through a copying operation (never an alias); that "
         "__getstate__ leaves out exactly _parent and __weakref__ (checked against attrs field order / __slots__), "
@@ -201,7 +201,7 @@ CLAIMED = {
         "three open known findings (F7a: X.pl3 / X.th / X.oh are not fixed points). Numeric precision and labels with whitespace are not decided.",
     ),
     "C08": (
-        "unit-orientation (dimension) check against physical constants + column agreement + keyword forwarding",
+        "unit-orientation (dimension) check against physical constants + column agreement + element symbols tabulated against the dummy test + keyword forwarding",
         "Decides that every DistanceUnit literal equals the physical constant or its reciprocal, that all members share "
         "one orientation, and that at every site where a unit value reaches the coordinates the operation (numerator / "
         "denominator position, and scale() multiplying) converts to Angstrom for that orientation; that the xyz writer's "
@@ -212,7 +212,7 @@ CLAIMED = {
         "float formatting precision and magnitudes are not decided.",
     ),
     "C09": (
-        "dispatch-matrix correspondence + MRO resolution + must-assigned dataflow on the CFG",
+        "dispatch-matrix correspondence (arms specialised per format / parser) + MRO resolution + must-assigned dataflow on the CFG + load / load_all sibling agreement",
         "Decides cell by cell that each molli-format arm of load/loads/load_all/loads_all/dump/dumps makes exactly one "
         "call, to <entry>_<fmt>, returns it (or hands over the stream given), passes name=name; that the target resolves on "
         "every output type the entry point's guards admit; that the ValueError guard dominates the format match and the "
